@@ -44,6 +44,9 @@ type DataPlan struct {
 	Panic   bool  // panic after reading
 	Status  []StatusCall
 	KeepErr bool // return Verdict even if the reader failed
+	// RideOut: when a Read fails with a timeout, the backend lifts the connection's read deadline (Conn.Conn() is public
+	// API) and goes on reading - a backend that would rather wait for a slow sender than lose the message
+	RideOut bool
 }
 
 var ReadAll = DataPlan{Max: -1}
@@ -183,7 +186,7 @@ func (b *Backend) NewSession(c *smtp.Conn) (smtp.Session, error) {
 	b.mu.Unlock()
 	e.Sess = id
 	b.add(e)
-	s := &sess{b: b, id: id}
+	s := &sess{b: b, id: id, conn: c}
 	switch {
 	case b.Auth && b.LMTPSess:
 		return &sessAL{sessA{s}}, nil
@@ -198,6 +201,7 @@ func (b *Backend) NewSession(c *smtp.Conn) (smtp.Session, error) {
 type sess struct {
 	b     *Backend
 	id    int
+	conn  *smtp.Conn
 	from  string
 	rcpts []string
 	// touched by Reset/Logout (write) and by a delivery until it returns (read): a Reset or Logout
@@ -387,6 +391,7 @@ func (s *sess) consume0(kind string, r io.Reader, status smtp.StatusCollector) (
 	buf := make([]byte, bufSize)
 	var body []byte
 	var rerr error
+	rides := 0
 	for plan.Max < 0 || len(body) < plan.Max {
 		p := buf
 		if plan.Max >= 0 && plan.Max-len(body) < len(p) {
@@ -399,6 +404,11 @@ func (s *sess) consume0(kind string, r io.Reader, status smtp.StatusCollector) (
 		e.Body = body
 		b.mu.Unlock()
 		if er != nil {
+			if te, ok := er.(interface{ Timeout() bool }); ok && te.Timeout() && plan.RideOut && s.conn != nil && rides < 8 {
+				rides++
+				s.conn.Conn().SetReadDeadline(time.Time{})
+				continue
+			}
 			rerr = er
 			break
 		}
